@@ -42,9 +42,9 @@ RULE = ("one evaluation = one (history, base, target, bundle format) installatio
         "one differential merge, or one tampered payload judged; distinct = distinct (kind, revision texts carried, format / "
         "flavour / tamper position class); non-trivial = the payload carries >= 2 revisions, a merge revision, or a tree with a "
         "symlink / executable / binary file")
-CASES = {"quick": 64, "thorough": 700}
-BUDGET_S = {"quick": 45, "thorough": 700}
-MIN_EVALS = {"quick": 400, "thorough": 6000}
+CASES = {"quick": 48, "thorough": 400}
+BUDGET_S = {"quick": 40, "thorough": 700}
+MIN_EVALS = {"quick": 400, "thorough": 5000}
 FLOORS = {"bundle_installed:4": 60, "bundle_installed:0.9": 60, "testament_compared": 300, "written_set_checked": 120,
           "reader_metadata_checked": 120, "directive_roundtrip": 60, "directive_patch_verified": 20, "merge_differential": 15,
           "tamper_patch_reported": 15, "tamper_judged": 100, "tamper_detected": 50}
@@ -67,6 +67,59 @@ NULL = b"null:"
 
 # ----------------------------------------------------------------------------- helpers
 
+_CUR = {"case": None, "mismatch": None}
+
+
+def kind_change_mismatch():
+    """True if the last testament mismatch of a 0.8 / 0.9 bundle tree is about an entry whose KIND differs from the
+    original's (same file id): these formats have no action for a kind change (file <-> symlink <-> directory under one
+    file id), the reconstruction keeps the base tree's kind.  The statement's histories do not name kind changes; they
+    arise here only when two branches gave one file id to entries of different kinds and were merged."""
+    import re
+
+    case, mm = _CUR["case"], _CUR["mismatch"]
+    if case is None or not mm:
+        return False
+    rid, got = mm
+    if isinstance(got, bytes):
+        got = got.decode("utf-8", "replace")
+    try:
+        want = case.source_texts(rid, "version 3" in got.split("\n", 1)[0])
+    except Exception:
+        return False
+    want = want["strict3" if "strict3" in want and "version 3" in got.split("\n", 1)[0] else "strict"]
+    if isinstance(want, bytes):
+        want = want.decode("utf-8", "replace")
+
+    def kinds(text):
+        out = {}
+        for line in text.splitlines():
+            if line.startswith("  "):
+                tok = re.split(r"(?<!\\) ", line.strip())
+                if len(tok) >= 3 and tok[0] in ("file", "directory", "symlink"):
+                    out[tok[2]] = tok[0]
+        return out
+
+    a, b = kinds(got), kinds(want)
+    return any(a[f] != b[f] for f in a if f in b)
+
+
+def parent_kind_varies(msg):
+    """The entry named in a BundleTree 'parent not directory' error sits, somewhere in this history, below a file id
+    that is a directory in one revision and something else in another (the reconstruction kept the base tree's kind)."""
+    import re
+
+    case = _CUR["case"]
+    m = re.search(r"b'((?:[^'\\]|\\.)*)'", msg)
+    if case is None or not m:
+        return False
+    try:
+        fid = eval("b'" + m.group(1) + "'").decode("utf-8", "replace")
+    except Exception:
+        return False
+    return any(len(case.kinds_by_id.get(p, ())) > 1 for p in case.parents_of.get(fid, ()))
+
+
 class EndlessRead(Exception):
     """The v4 container reader kept asking an exhausted source for more bytes (it would never return)."""
 
@@ -83,6 +136,21 @@ def worker_init(tier):
     if getattr(v4.osutils, "_c40", False):
         return
     real = osutils.IterableFile
+    from breezy.bzr.bundle import bundle_data
+
+    orig_validate = bundle_data.BundleInfo._validate_revision
+
+    def _validate_revision(self, tree, revision_id):
+        try:
+            return orig_validate(self, tree, revision_id)
+        except Exception:
+            try:  # what the 0.8 / 0.9 reader reconstructed, for the mechanism key (see kind_change_mismatch)
+                _CUR["mismatch"] = (revision_id, self._testament(self.get_revision(revision_id), tree).as_text())
+            except Exception:
+                _CUR["mismatch"] = None
+            raise
+
+    bundle_data.BundleInfo._validate_revision = _validate_revision
 
     class GuardedIterableFile:
         _c40 = True
@@ -149,6 +217,11 @@ def attempt(ctx, what, fn, detail=None):
         if type(e).__name__ == "NoSuchFile" and "_write_delta" in tb and "old_tree.get_file_revision" in tb:
             # one mechanism wherever a 0.8 / 0.9 bundle is written (write_bundle, format-1 directives)
             key = "bundle-0.9:write:unchanged-child-of-renamed-directory"
+        if type(e).__name__ == "TestamentMismatch" and kind_change_mismatch():
+            key = "bundle-0.9:kind-change-not-representable"
+        if type(e).__name__ == "InconsistentDelta" and "parent not directory" in str(e) and "_get_inventory" in tb and parent_kind_varies(str(e)):
+            key = "bundle-0.9:kind-change-not-representable"
+        _CUR["mismatch"] = None
         if isinstance(e, UnicodeDecodeError) and "_read_one_patch" in tb:
             key = "bundle-0.9:read:wrapped-action-line-splits-utf8"
         ctx.fail(key, repr(e)[:400], d)
@@ -197,6 +270,14 @@ class Case:
         self.rich = open_repo(repo_path).supports_rich_root()
         self.bundle_formats = ["4", "0.9"] + ([] if self.rich else ["0.8"])
         self._texts = {}
+        self.kinds_by_id, self.parents_of = {}, {}
+        for r in revs.values():
+            ids = r.get("ids") or {}
+            for path, (fid, kind) in ids.items():
+                self.kinds_by_id.setdefault(fid, set()).add(kind)
+                par = path.rpartition("/")[0]
+                if par in ids:
+                    self.parents_of.setdefault(fid, set()).add(ids[par][0])
 
     def anc(self, rid):
         from vf.checks._c35_hist import ancestry
@@ -422,10 +503,22 @@ def directives(case, rng):
         if pair:
             break
     if pair is None:
-        ctx.hist("directive:no-unmerged-branch")
-        return
-    sname, tname = pair
-    ts, tt = tips[sname], tips[tname]
+        # every branch is merged into every other: submit to a copy of the newest branch as it was some revisions ago
+        tname = h.recorded[h.order[-1]]["branch"]
+        tt = tips[tname]
+        behind = sorted(case.anc(tt) - {tt})
+        if not behind:
+            ctx.hist("directive:single-revision-history")
+            return
+        ts = rng.choice(behind)
+        sname = "submit"
+        h.trees[sname] = os.path.join(h.root, sname)
+        Branch.open(h.trees[tname]).controldir.sprout(h.trees[sname], revision_id=ts)
+        ctx.hist("directive:submit-branch-behind")
+    else:
+        sname, tname = pair
+        ts, tt = tips[sname], tips[tname]
+        ctx.hist("directive:submit-branch-diverged")
     submit = Branch.open(h.trees[sname])
     src_url = Branch.open(h.trees[tname]).base
     when = 1500100000 + rng.randint(0, 10 ** 6)
@@ -540,7 +633,11 @@ def directives(case, rng):
             sa, sb = tree_state(a), tree_state(b)
             d = dict(detail)
             d["outcomes"] = [ra[0], rb[0]]
-            ctx.check(ra[0] == rb[0], "merge:outcome-differs", "merge from directive: %s, from branch: %s" % (ra[0], rb[0]), d)
+            if ra[0] == "refused:TestamentMismatch" and rb[0] != ra[0] and kind_change_mismatch():
+                ctx.fail("bundle-0.9:kind-change-not-representable", "merge from directive: %s, from branch: %s" % (ra[0], rb[0]), d)
+            else:
+                ctx.check(ra[0] == rb[0], "merge:outcome-differs", "merge from directive: %s, from branch: %s" % (ra[0], rb[0]), d)
+            _CUR["mismatch"] = None
             if ra[0] == rb[0]:
                 for part in ("disk", "parents", "conflicts"):
                     if sa[part] != sb[part]:
@@ -582,7 +679,7 @@ def judge_tampered_install(case, what, klass, install, twin, carried, detail):
     except EndlessRead as e:
         ctx.count("tamper_judged")
         ctx.hist("tamper:%s:%s:never-terminates" % (what, klass))
-        ctx.fail("tamper:%s:reader-never-terminates" % what, "reading the tampered payload never ends: %s" % e, detail)
+        ctx.fail("tamper:bundle-4:reader-never-terminates", "reading the tampered payload (%s) never ends: %s" % (what, e), detail)
         out = "never-terminates"
     except Exception as e:
         ctx.count("tamper_judged")
@@ -793,10 +890,13 @@ def case(ctx):
     revs = {}
     with repo.lock_read():
         for rid in h.order:
-            revs[rid] = {"snap": strip_ids(snap_tree(repo.revision_tree(rid))), "parents": list(h.recorded[rid]["parents"])}
+            full = snap_tree(repo.revision_tree(rid))
+            revs[rid] = {"snap": strip_ids(full), "parents": list(h.recorded[rid]["parents"]),
+                         "ids": {p: (v[3], v[0]) for p, v in full.items()}}
             ctx.hist("tz:%d" % h.recorded[rid]["timezone"])
     del repo
     c = Case(ctx, h, h.trees["b0"], revs, fmt)
+    _CUR["case"], _CUR["mismatch"] = c, None
     cwd = os.getcwd()
     os.chdir(ctx.tmp("cwd"))
     try:
@@ -809,4 +909,5 @@ def case(ctx):
         tamper_bundles(c, rng, bundles[:2] if not thorough else bundles[:5])
         directives(c, rng)
     finally:
+        _CUR["case"] = None
         os.chdir(cwd)
